@@ -1,130 +1,19 @@
 /-
-  OFV.Lemmas.ParseSpin — COUNTEREXAMPLE to the total-ness of Parse (`FlowStats_spin`): a multipart FlowStats reply of
-  the legal maximum size (65535 bytes) in a buffer with at least 67 bytes of spare capacity on which `Parse` loops
-  for ever.  The frame (`frame2 nb tail`, any 65222 note bytes `nb`, any `tail` of at least 256 bytes):
-      header 04 13 ffff xid | multipart type 1 (flow) | FlowStats record: Length ffff, empty match (00 01 00 04) |
-      instruction apply-actions, length ffff |
-      action 1: NX note, length 65232 | action 2: NX learn, stored length 40, one spec `37 ff` (match from a 2047-bit
-      value, output) whose 256 value bytes `data[2:258]` lie beyond len(data) but inside the capacity.
-  `Len()` of the learn action is recomputed from its spec: 296; the cursor of the action loop ends at 65536;
-  InstrActions.Len() = 8 + 65232 + 296 = 65536 wraps to 0; `n += int(instr.Len())` in FlowStats.UnmarshalBinary
-  never advances.  Reproduced on the Go library: `parse <frame + 67 spare bytes> 65535 => spin` (66 spare: err).
+  OFV.Lemmas.ParseSpin — a decoder that is NOT total on its own, outside the reach of Parse (`bundleAdd_spin`):
+  `new(BundleAdd).UnmarshalBinary(data)` loops for ever on the 65545-byte input
+      bundle id, pad, flags | embedded message: an 8-byte echo request |
+      property: type ffff, Length 65529 (fff9), experimenter 1, type 2, 65517 payload bytes (arbitrary)
+  because BundlePropertyExperimenter.Len() = (12 + 65517 + 7) / 8 * 8 wraps to 0 in uint16 and the property loop
+  `n += int(property.Len())` stops advancing.  Reproduced on the Go library: `dec BundleAdd <hex> 65545 => spin`.
+  Parse cannot reach it: the payload of an experimenter message is `data[16:Header.Length]`, at most 65519 bytes
+  (that is the hypothesis `data.len ≤ 65528` of `BundleAdd_unmarshalWith_ns`).
   Nothing else depends on this file: when the defect is fixed in the library (and the fix mirrored in the model) this
-  file and the theorems of C07 that use it are to be dropped.
+  file and the theorem of C07 that uses it are to be dropped.
 -/
 import OFV.Lemmas.ParseFlowStats
 set_option linter.unusedSimpArgs false
 namespace OFV.Model
 open OFV OFV.Go InstrAux
-
-def P80 : Bytes := [4,19,255,255,0,0,0,0, 0,1,0,0,0,0,0,0, 255,255] ++ zeros 46 ++ [0,1,0,4,0,0,0,0, 0,4,255,255,0,0,0,0]
-def NOTE10 : Bytes := [255,255,254,208,0,0,35,32,0,8]
-def LEARN34 : Bytes := [255,255,0,40,0,0,35,32,0,16] ++ zeros 22 ++ [0x37, 0xff]
-def frame2 (nb tail : Bytes) : Bytes := P80 ++ (NOTE10 ++ (nb ++ (LEARN34 ++ tail)))
-
-def noteHdr : V := .obj "NXActionHeader" [.obj "ActionHeader" [.num 65535, .num 65232], .num 8992, .num 8]
-
-/-- the note action (65232 bytes) at the head of the action list decodes, and reports its stored length -/
-theorem note_dec (nb rest : Bytes) (hnb : nb.length = 65222) (k : Nat) :
-    ∃ v, DecodeAction (k + 1) ⟨NOTE10 ++ (nb ++ rest), 65455⟩ = .ok v ∧ Action.lenM v = .ok (65232, v) := by
-  have hnew : newActionFor ⟨NOTE10 ++ (nb ++ rest), 65455⟩ = .ok NXActionNote.zero := rfl
-  have hhdr : NXActionHeader.unmarshal NXActionHeader.zero ⟨NOTE10 ++ (nb ++ rest), 65455⟩ = .ok noteHdr := rfl
-  have hlen : NXActionHeader.length noteHdr = .ok 65232 := rfl
-  have hsl : (⟨NOTE10 ++ (nb ++ rest), 65455⟩ : Slice).sliceR 10 (65232 : UInt16).toNat
-      = .ok ⟨(NOTE10 ++ (nb ++ rest)).drop 10, (65232 : UInt16).toNat - 10⟩ :=
-    Slice.sliceR_ok _ _ _ (by decide) (by simp [NOTE10, hnb])
-  refine ⟨.obj "NXActionNote" [noteHdr, .bytes (makeCopy ((65232 : UInt16) - 10).toNat
-    (⟨(NOTE10 ++ (nb ++ rest)).drop 10, (65232 : UInt16).toNat - 10⟩ : Slice).bytes)], ?_, ?_⟩
-  · unfold DecodeAction
-    simp only [hnew, Res.bind_ok]
-    rw [if_neg (by decide)]
-    show NXActionNote.unmarshal NXActionNote.zero ⟨NOTE10 ++ (nb ++ rest), 65455⟩ = _
-    unfold NXActionNote.unmarshal
-    simp only [hhdr, Res.bind_ok, hlen]
-    rw [if_neg (by decide), hsl]
-    rfl
-  · rw [Action_lenM_Note]
-    simp only [NXActionNote.lenM, same, makeCopy_length']
-    rfl
-
-
-def specHdr : V := .obj "NXLearnSpecHeader" [.num 1, .num 0, .num 1, .num 2047, .num 2]
-
-/-- the learn spec `37 ff` (match from a 2047-bit value, output): its 256 value bytes are taken through the capacity -/
-theorem spec_dec (tail : Bytes) (ht : 256 ≤ tail.length) :
-    ∃ spec, NXLearnSpec.unmarshal NXLearnSpec.zero ⟨[0x37, 0xff] ++ tail, 191⟩ = .ok spec ∧ NXLearnSpec.len spec = .ok 258 := by
-  have hh : NXLearnSpecHeader.unmarshal NXLearnSpecHeader.zero ⟨[0x37, 0xff] ++ tail, 191⟩ = .ok specHdr := rfl
-  have hk : (NXLearnSpec.srcLen 2047).toNat = 256 := rfl
-  have hsl : (⟨[0x37, 0xff] ++ tail, 191⟩ : Slice).sliceR 2 (2 + (NXLearnSpec.srcLen 2047).toNat)
-      = .ok ⟨([0x37, 0xff] ++ tail).drop 2, 2 + (NXLearnSpec.srcLen 2047).toNat - 2⟩ :=
-    Slice.sliceR_ok _ _ _ (by omega) (by simp [hk]; omega)
-  refine ⟨.obj "NXLearnSpec" [specHdr, .nil, .nil, .bytes (makeCopy (NXLearnSpec.srcLen 2047).toNat
-    (⟨([0x37, 0xff] ++ tail).drop 2, 2 + (NXLearnSpec.srcLen 2047).toNat - 2⟩ : Slice).bytes)], ?_, rfl⟩
-  simp only [NXLearnSpec.unmarshal, NXLearnSpec.zero, hh, Res.bind_ok, specHdr]
-  simp only [hsl, Res.bind_ok]
-  rfl
-
-
-def learnHdr : V := .obj "NXActionHeader" [.obj "ActionHeader" [.num 65535, .num 40], .num 8992, .num 16]
-
-/-- the learn action (stored length 40, one spec) decodes, and `Len()` recomputes its size from the spec: 296 -/
-theorem learn_dec (tail : Bytes) (ht : 256 ≤ tail.length) (k : Nat) :
-    ∃ v, DecodeAction (k + 1) ⟨LEARN34 ++ tail, 223⟩ = .ok v ∧ Action.lenM v = .ok (296, v) := by
-  obtain ⟨spec, hspec, hslen⟩ := spec_dec tail ht
-  have hnew : newActionFor ⟨LEARN34 ++ tail, 223⟩ = .ok NXActionLearn.zero := rfl
-  have hhdr : NXActionHeader.unmarshal NXActionHeader.zero ⟨LEARN34 ++ tail, 223⟩ = .ok learnHdr := rfl
-  have hlen : NXActionHeader.length learnHdr = .ok 40 := rfl
-  have r10 : (⟨LEARN34 ++ tail, 223⟩ : Slice).u16From 10 = .ok 0 := rfl
-  have r12 : (⟨LEARN34 ++ tail, 223⟩ : Slice).u16From 12 = .ok 0 := rfl
-  have r14 : (⟨LEARN34 ++ tail, 223⟩ : Slice).u16From 14 = .ok 0 := rfl
-  have r16 : (⟨LEARN34 ++ tail, 223⟩ : Slice).u64From 16 = .ok 0 := rfl
-  have r24 : (⟨LEARN34 ++ tail, 223⟩ : Slice).u16From 24 = .ok 0 := rfl
-  have r26 : (⟨LEARN34 ++ tail, 223⟩ : Slice).byteAt 26 = .ok 0 := rfl
-  have r28 : (⟨LEARN34 ++ tail, 223⟩ : Slice).u16From 28 = .ok 0 := rfl
-  have r30 : (⟨LEARN34 ++ tail, 223⟩ : Slice).u16From 30 = .ok 0 := rfl
-  have hfrom : (⟨LEARN34 ++ tail, 223⟩ : Slice).fromR 32 = .ok ⟨[0x37, 0xff] ++ tail, 191⟩ := rfl
-  refine ⟨.obj "NXActionLearn" [learnHdr, .num 0, .num 0, .num 0, .num 0, .num 0, .num 0, .num 0, .num 0, .num 0,
-    .list [spec], .bytes []], ?_, ?_⟩
-  · unfold DecodeAction
-    simp only [hnew, Res.bind_ok]
-    rw [if_neg (by decide)]
-    show NXActionLearn.unmarshal NXActionLearn.zero ⟨LEARN34 ++ tail, 223⟩ = _
-    simp only [NXActionLearn.unmarshal, NXActionLearn.zero, hhdr, Res.bind_ok, hlen]
-    rw [if_neg (by decide)]
-    simp only [r10, r12, r14, r16, r24, r26, r28, r30, Res.bind_ok]
-    show (goLoop (65535 + 1) _ _ _ _ >>= _) = _
-    unfold goLoop
-    rw [if_pos (by decide)]
-    simp only [hfrom, Res.bind_ok, hspec, hslen, Res.pure_eq]
-    rw [if_neg (by decide)]
-    unfold goLoop
-    rw [if_neg (by simp [show (258 : UInt16).toNat = 258 from rfl, show (40 : UInt16).toNat = 40 from rfl])]
-    rfl
-  · rw [Action_lenM_Learn]
-    simp only [NXActionLearn.lenM, NXActionLearn.len, NXActionLearn.specsLen, hslen, Res.bind_ok, Res.pure_eq, same]
-    rfl
-
-
-def Ibuf (nb tail : Bytes) : Bytes := [0,4,255,255,0,0,0,0] ++ (NOTE10 ++ (nb ++ (LEARN34 ++ tail)))
-
-theorem Ibuf_drop (nb tail : Bytes) (hnb : nb.length = 65222) : (Ibuf nb tail).drop 65240 = LEARN34 ++ tail := by
-  have : Ibuf nb tail = ([0,4,255,255,0,0,0,0] ++ NOTE10 ++ nb) ++ (LEARN34 ++ tail) := by
-    simp [Ibuf, List.append_assoc]
-  rw [this]
-  have hl : ([0,4,255,255,0,0,0,0] ++ NOTE10 ++ nb : Bytes).length = 65240 := by simp [NOTE10, hnb]
-  rw [← hl, List.drop_left']
-  rfl
-
-theorem goLoop_step {σ} (f : Nat) (cond : σ → Bool) (cursor : σ → Nat) (body : σ → R σ) (s s' : σ)
-    (h1 : cond s = true) (h2 : body s = .ok s') (h3 : cursor s < cursor s') :
-    goLoop (f + 1) cond cursor body s = goLoop f cond cursor body s' := by
-  rw [goLoop, if_pos h1, h2]
-  simp only []
-  rw [if_neg (by omega)]
-
-theorem goLoop_done {σ} (f : Nat) (cond : σ → Bool) (cursor : σ → Nat) (body : σ → R σ) (s : σ)
-    (h1 : cond s = false) : goLoop (f + 1) cond cursor body s = .ok s := by
-  rw [goLoop, if_neg (by simp [h1])]
 
 theorem goLoop_stuck {σ} (f : Nat) (cond : σ → Bool) (cursor : σ → Nat) (body : σ → R σ) (s s' : σ)
     (h1 : cond s = true) (h2 : body s = .ok s') (h3 : cursor s' ≤ cursor s) :
@@ -133,137 +22,59 @@ theorem goLoop_stuck {σ} (f : Nat) (cond : σ → Bool) (cursor : σ → Nat) (
   simp only []
   rw [if_pos h3]
 
-/-- the action list of the instruction: a note of 65232 bytes and a learn action reporting 296 bytes — 65528 in all,
-    the cursor ends at 65536 -/
-theorem actions_dec (nb tail : Bytes) (hnb : nb.length = 65222) (ht : 256 ≤ tail.length) :
-    ∃ a1 a2, decodeActions ⟨Ibuf nb tail, 65463⟩ 65535 8 [] = .ok { n := 65536, xs := [a1, a2], err := false }
-      ∧ Action.lenM a1 = .ok (65232, a1) ∧ Action.lenM a2 = .ok (296, a2) := by
-  obtain ⟨a1, h1, hl1⟩ := note_dec nb (LEARN34 ++ tail) hnb 65455
-  obtain ⟨a2, h2, hl2⟩ := learn_dec tail ht 223
-  refine ⟨a1, a2, ?_, hl1, hl2⟩
-  have f8 : (⟨Ibuf nb tail, 65463⟩ : Slice).fromR 8 = .ok ⟨NOTE10 ++ (nb ++ (LEARN34 ++ tail)), 65455⟩ := rfl
-  have f2 : (⟨Ibuf nb tail, 65463⟩ : Slice).fromR 65240 = .ok ⟨LEARN34 ++ tail, 223⟩ := by
-    rw [Slice.fromR_ok _ _ (by simp)]
-    simp only [Ibuf_drop nb tail hnb]
-  unfold decodeActions
-  show goLoop (65464 + 1) _ _ _ _ = _
-  rw [goLoop_step 65464 _ _ _ _ { n := 65240, xs := [a1], err := false } rfl ?b1 (by simp [St.cursor])]
-  case b1 =>
-    simp only [f8, Res.bind_ok, h1, hl1]
+/-- bundle id, pad, flags, then an 8-byte echo request as the embedded message -/
+def BA16 : Bytes := [0,0,0,1, 0,0, 0,0, 4,2,0,8,0,0,0,1]
+/-- a bundle property whose Length field is 65529 -/
+def PROP12 : Bytes := [255,255, 255,249, 0,0,0,1, 0,0,0,2]
+def bundleFrame (pd : Bytes) : Bytes := BA16 ++ (PROP12 ++ pd)
+
+theorem bundleAdd_spin (pd : Bytes) (hpd : pd.length = 65517) :
+    BundleAdd.unmarshal BundleAdd.zero ⟨bundleFrame pd, 65545⟩ = .spin := by
+  have r0 : (⟨bundleFrame pd, 65545⟩ : Slice).u32From 0 = .ok 1 := rfl
+  have r6 : (⟨bundleFrame pd, 65545⟩ : Slice).u16From 6 = .ok 0 := rfl
+  have r10 : (⟨bundleFrame pd, 65545⟩ : Slice).u16From 10 = .ok 8 := rfl
+  have hs : (⟨bundleFrame pd, 65545⟩ : Slice).sliceR 8 (8 + (8 : UInt16).toNat)
+      = .ok ⟨[4,2,0,8,0,0,0,1] ++ (PROP12 ++ pd), 8⟩ := rfl
+  have hparse : parse (65545 + 1) ⟨[4,2,0,8,0,0,0,1] ++ (PROP12 ++ pd), 8⟩
+      = .ok (.obj "Header" [.num 4, .num 2, .num 8, .num 1]) := by
+    have hmax : ∀ c, ∃ d, max (65545 + 1) (c + 1) = d + 1 := fun c => ⟨max (65545 + 1) (c + 1) - 1, by omega⟩
+    obtain ⟨d, hd⟩ := hmax (⟨[4,2,0,8,0,0,0,1] ++ (PROP12 ++ pd), 8⟩ : Slice).cap
+    unfold parse
+    rw [hd]
     rfl
-  show goLoop (65463 + 1) _ _ _ _ = _
-  rw [goLoop_step 65463 _ _ _ _ { n := 65536, xs := [a1, a2], err := false } rfl ?b2 (by simp [St.cursor])]
-  case b2 =>
-    simp only [f2, Res.bind_ok, h2, hl2]
-    rfl
-  exact goLoop_done _ _ _ _ _ rfl
-
-
-/-- the apply-actions instruction decodes, and its `Len()` = 8 + 65232 + 296 wraps to 0 -/
-theorem instr_dec (nb tail : Bytes) (hnb : nb.length = 65222) (ht : 256 ≤ tail.length) :
-    ∃ i, DecodeInstr ⟨Ibuf nb tail, 65463⟩ = .ok i ∧ Instruction.lenM i = .ok (0, i) := by
-  obtain ⟨a1, a2, hdec, hl1, hl2⟩ := actions_dec nb tail hnb ht
-  have h4 : InstrHeader.unmarshal4 InstrHeader.zero ⟨Ibuf nb tail, 65463⟩ = .ok (.obj "InstrHeader" [.num 4, .num 65535]) := rfl
-  have ht16 : (⟨Ibuf nb tail, 65463⟩ : Slice).u16In 0 2 = .ok 4 := rfl
-  refine ⟨.obj "InstrActions" [.obj "InstrHeader" [.num 4, .num 65535], .bytes [], .list [a1, a2]], ?_, ?_⟩
-  · unfold DecodeInstr
-    simp only [ht16, Res.bind_ok]
-    rw [if_neg (by decide), if_neg (by decide), if_pos (by decide)]
-    simp only [InstrActions.unmarshalP, InstrActions.zero, h4, Res.bind_ok]
-    have : InstrHeader.length (.obj "InstrHeader" [.num 4, .num 65535]) = 65535 := rfl
-    rw [this, hdec]
-    rfl
-  · rw [Instruction_lenM_InstrActions]
-    simp only [InstrActions.lenM, mapM2, hl1, hl2, Res.bind_ok, Res.pure_eq]
-    rfl
-
-
-def Rbuf (nb tail : Bytes) : Bytes := [255,255] ++ zeros 46 ++ [0,1,0,4,0,0,0,0] ++ Ibuf nb tail
-
-/-- the instruction loop of the FlowStats record never advances -/
-theorem instrs_spin (nb tail : Bytes) (hnb : nb.length = 65222) (ht : 256 ≤ tail.length) (is0 : List V) :
-    FlowStats.decodeInstrs ⟨Rbuf nb tail, 65519⟩ 65535 56 is0 = .spin := by
-  obtain ⟨i, hi, hli⟩ := instr_dec nb tail hnb ht
-  have f56 : (⟨Rbuf nb tail, 65519⟩ : Slice).fromR 56 = .ok ⟨Ibuf nb tail, 65463⟩ := rfl
-  unfold FlowStats.decodeInstrs
-  rw [show ({ buf := Rbuf nb tail, len := 65519 } : Slice).len = 65519 from rfl]
-  show (goLoop (131054 + 1) _ _ _ _ >>= _) = _
-  rw [goLoop_stuck (σ := FlowStats.ISt) 131054 _ _ _ _ ({ n := 56, is := is0 ++ [i] } : FlowStats.ISt) (by rfl) ?b (by exact Nat.le_refl _)]
+  have f16 : (⟨bundleFrame pd, 65545⟩ : Slice).fromR 16 = .ok ⟨PROP12 ++ pd, 65529⟩ := rfl
+  have hsl : (⟨PROP12 ++ pd, 65529⟩ : Slice).sliceR 12 (65529 : UInt16).toNat
+      = .ok ⟨(PROP12 ++ pd).drop 12, (65529 : UInt16).toNat - 12⟩ :=
+    Slice.sliceR_ok _ _ _ (by decide) (by simp [PROP12, hpd])
+  have hprop : ∃ pr, BundlePropertyExperimenter.unmarshal BundlePropertyExperimenter.zero ⟨PROP12 ++ pd, 65529⟩ = .ok pr
+      ∧ BundlePropertyExperimenter.len pr = .ok 0 := by
+    refine ⟨.obj "BundlePropertyExperimenter" [.num 65535, .num 65529, .num 1, .num 2,
+      .bytes (makeCopy ((65529 : UInt16).toNat - 12) (⟨(PROP12 ++ pd).drop 12, (65529 : UInt16).toNat - 12⟩ : Slice).bytes)], ?_, ?_⟩
+    · have q0 : (⟨PROP12 ++ pd, 65529⟩ : Slice).u16From 0 = .ok 65535 := rfl
+      have q2 : (⟨PROP12 ++ pd, 65529⟩ : Slice).u16From 2 = .ok 65529 := rfl
+      have q4 : (⟨PROP12 ++ pd, 65529⟩ : Slice).u32From 4 = .ok 1 := rfl
+      have q8 : (⟨PROP12 ++ pd, 65529⟩ : Slice).u32From 8 = .ok 2 := rfl
+      unfold BundlePropertyExperimenter.unmarshal
+      rw [if_neg (by simp [show (65529 : UInt16).toNat = 65529 from rfl, show (8 : UInt16).toNat = 8 from rfl])]
+      simp only [q0, q2, q4, q8, Res.bind_ok]
+      rw [if_neg (by simp [show (65529 : UInt16).toNat = 65529 from rfl, show (8 : UInt16).toNat = 8 from rfl]), hsl]
+      rfl
+    · simp only [BundlePropertyExperimenter.len, makeCopy_length']
+      rfl
+  obtain ⟨pr, hpr, hlen⟩ := hprop
+  unfold BundleAdd.unmarshal
+  simp only [BundleAdd.unmarshalWith, BundleAdd.zero]
+  rw [if_neg (by simp [show (65529 : UInt16).toNat = 65529 from rfl, show (8 : UInt16).toNat = 8 from rfl])]
+  simp only [r0, r6, r10, Res.bind_ok]
+  rw [if_neg (by simp [show (65529 : UInt16).toNat = 65529 from rfl, show (8 : UInt16).toNat = 8 from rfl])]
+  simp only [hs, Res.bind_ok, hparse]
+  rw [if_neg (by decide), if_pos (by simp [show (65529 : UInt16).toNat = 65529 from rfl, show (8 : UInt16).toNat = 8 from rfl])]
+  show (goLoop (65545 + 1) _ _ _ _ >>= _) = _
+  rw [goLoop_stuck (σ := BundleAdd.St) 65545 _ _ _ _ ({ n := 16, ps := [pr] } : BundleAdd.St) (by rfl) ?b (by exact Nat.le_refl _)]
   · rfl
   case b =>
-    simp only [f56, Res.bind_ok, hi, hli]
-    rfl
-
-theorem record_spin (nb tail : Bytes) (hnb : nb.length = 65222) (ht : 256 ≤ tail.length) :
-    FlowStats.unmarshalP FlowStats.new ⟨Rbuf nb tail, 65519⟩ = .spin := by
-  have hm : Match.unmarshalP Match.new ⟨[0,1,0,4,0,0,0,0] ++ Ibuf nb tail, 65471⟩
-      = .ok (.obj "Match" [.num 1, .num 4, .list []], false) := rfl
-  have hml : Match.lenM (.obj "Match" [.num 1, .num 4, .list []]) = .ok (8, .obj "Match" [.num 1, .num 4, .list []]) := rfl
-  have r0 : (⟨Rbuf nb tail, 65519⟩ : Slice).u16From 0 = .ok 65535 := rfl
-  have r2 : (⟨Rbuf nb tail, 65519⟩ : Slice).byteAt 2 = .ok 0 := rfl
-  have r3 : (⟨Rbuf nb tail, 65519⟩ : Slice).byteAt 3 = .ok 0 := rfl
-  have r4 : (⟨Rbuf nb tail, 65519⟩ : Slice).u32From 4 = .ok 0 := rfl
-  have r8 : (⟨Rbuf nb tail, 65519⟩ : Slice).u32From 8 = .ok 0 := rfl
-  have r12 : (⟨Rbuf nb tail, 65519⟩ : Slice).u16From 12 = .ok 0 := rfl
-  have r14 : (⟨Rbuf nb tail, 65519⟩ : Slice).u16From 14 = .ok 0 := rfl
-  have r16 : (⟨Rbuf nb tail, 65519⟩ : Slice).u16From 16 = .ok 0 := rfl
-  have r18 : (⟨Rbuf nb tail, 65519⟩ : Slice).u16From 18 = .ok 0 := rfl
-  have r20 : (⟨Rbuf nb tail, 65519⟩ : Slice).sliceR 20 24 = .ok ⟨(Rbuf nb tail).drop 20, 4⟩ := rfl
-  have r24 : (⟨Rbuf nb tail, 65519⟩ : Slice).u64From 24 = .ok 0 := rfl
-  have r32 : (⟨Rbuf nb tail, 65519⟩ : Slice).u64From 32 = .ok 0 := rfl
-  have r40 : (⟨Rbuf nb tail, 65519⟩ : Slice).u64From 40 = .ok 0 := rfl
-  have r48 : (⟨Rbuf nb tail, 65519⟩ : Slice).fromR 48 = .ok ⟨[0,1,0,4,0,0,0,0] ++ Ibuf nb tail, 65471⟩ := rfl
-  simp only [FlowStats.unmarshalP, FlowStats.new, r0, r2, r3, r4, r8, r12, r14, r16, r18, r20, r24, r32, r40, r48,
-    Res.bind_ok, hm, hml]
-  have : FlowStats.decodeInstrs ⟨Rbuf nb tail, 65519⟩ (65535 : UInt16).toNat (48 + (8 : UInt16).toNat) []
-      = .spin := instrs_spin nb tail hnb ht []
-  rw [this]
-  rfl
-
-
-theorem msgLoopW_body_spin {σ} (f : Nat) (cond : σ → Bool) (cursor : σ → Nat) (body : σ → R σ) (s : σ)
-    (h1 : cond s = true) (h2 : body s = .spin) : msgLoopW (f + 1) cond cursor body s = .spin := by
-  rw [msgLoopW, if_pos h1, h2]
-
-/-- COUNTEREXAMPLE (genuine defect).  A multipart FlowStats reply of the legal maximum size, 65535 bytes, in a buffer
-    with at least 67 bytes of spare capacity makes Parse loop for ever. -/
-theorem FlowStats_spin (nb tail : Bytes) (hnb : nb.length = 65222) (ht : 256 ≤ tail.length) (depth : Nat) :
-    parse depth ⟨frame2 nb tail, 65535⟩ = .spin := by
-  have hmax : ∀ c, ∃ d, max depth (c + 1) = d + 1 := fun c => ⟨max depth (c + 1) - 1, by omega⟩
-  obtain ⟨d, hd⟩ := hmax (⟨frame2 nb tail, 65535⟩ : Slice).cap
-  unfold parse
-  rw [hd]
-  unfold parseD parseStep
-  have hb1 : (⟨frame2 nb tail, 65535⟩ : Slice).byteAt 1 = .ok 19 := rfl
-  simp only [hb1, Res.bind_ok]
-  have ht19 : (19 : UInt8).toNat = 19 := rfl
-  simp only [ht19]
-  suffices h : MultipartReply.unmarshalWith anyLenM MultipartReply.zero ⟨frame2 nb tail, 65535⟩ = .spin by
-    simp (config := { decide := true }) only [Gen.openflow13.Type_Hello, Gen.openflow13.Type_Error,
-      Gen.openflow13.Type_EchoRequest, Gen.openflow13.Type_EchoReply, Gen.openflow13.Type_GetConfigRequest,
-      Gen.openflow13.Type_BarrierRequest, Gen.openflow13.Type_BarrierReply, Gen.openflow13.Type_Experimenter,
-      Gen.openflow13.Type_FeaturesRequest, Gen.openflow13.Type_FeaturesReply, Gen.openflow13.Type_GetConfigReply,
-      Gen.openflow13.Type_SetConfig, Gen.openflow13.Type_PacketIn, Gen.openflow13.Type_FlowRemoved,
-      Gen.openflow13.Type_PortStatus, Gen.openflow13.Type_FlowMod, Gen.openflow13.Type_PacketOut,
-      Gen.openflow13.Type_GroupMod, Gen.openflow13.Type_PortMod, Gen.openflow13.Type_TableMod,
-      Gen.openflow13.Type_QueueGetConfigRequest, Gen.openflow13.Type_QueueGetConfigReply,
-      Gen.openflow13.Type_MultiPartRequest, Gen.openflow13.Type_MultiPartReply, if_true, if_false, or_self, h]
-    rfl
-  have hh : msgTryU Header.unmarshal Header.zero ⟨frame2 nb tail, 65535⟩
-      = .ok (.obj "Header" [.num 4, .num 19, .num 65535, .num 0], false) := rfl
-  have r8 : (⟨frame2 nb tail, 65535⟩ : Slice).u16From 8 = .ok 1 := rfl
-  have r10 : (⟨frame2 nb tail, 65535⟩ : Slice).u16From 10 = .ok 0 := rfl
-  have f16 : (⟨frame2 nb tail, 65535⟩ : Slice).fromR 16 = .ok ⟨Rbuf nb tail, 65519⟩ := rfl
-  have hrec : MultipartReply.decodeRecord (1 : UInt16).toNat ⟨Rbuf nb tail, 65519⟩ = .spin := by
-    have : MultipartReply.decodeRecord (1 : UInt16).toNat ⟨Rbuf nb tail, 65519⟩
-        = FlowStats.unmarshalP FlowStats.new ⟨Rbuf nb tail, 65519⟩ := rfl
-    rw [this, record_spin nb tail hnb ht]
-  simp only [MultipartReply.unmarshalWith, MultipartReply.zero, hh, Res.bind_ok, r8, r10]
-  show (msgLoopW (65536 + 1) _ _ _ _ >>= _) = _
-  rw [msgLoopW_body_spin 65536 _ _ _ _ (by rfl) ?b]
-  · rfl
-  case b =>
-    simp only [f16, Res.bind_ok, hrec]
+    rw [show (8 + (8 : UInt16).toNat + 7) / 8 * 8 = 16 from rfl]
+    simp only [f16, Res.bind_ok, hpr, hlen]
     rfl
 
 end OFV.Model
